@@ -139,13 +139,68 @@ let () =
        | Some oi, Some ol -> apply2 oi ol
        | _ -> raise Reject)
     | _ -> " ?" in
+  (* ---------------- weighted stream (C03Weighted.v): inputs, labels, weights driven in lock-step by the list functions of
+     C03Model; uniform weights, sumOfWeights, classWeight, bootstrap (the loop, on the draws handed over) from C03Weighted *)
+  let wempty = (empty, ([] : nat list list), "()") in
+  let wregs = Array.make 4 wempty in
+  let dump_w r =
+    let (x, wt, lsh) = wregs.(r) in
+    let bs = List.map2 (fun (bi, bl) bw ->
+        String.concat "," (List.map2 (fun (i, lb) w -> Printf.sprintf "%d:%d:%d" (int_of_nat i) (int_of_nat lb) (int_of_nat w)) (List.combine bi bl) bw))
+        (List.combine x.inp x.lab) wt in
+    let sw = int_of_nat (sum_of_weights { inputs = x.inp; labels = wt }) in
+    let cw = if x.inp = [] || List.concat x.inp = [] then "" else
+        Printf.sprintf " cw%d=%s" r (String.concat "," (List.map (fun v -> string_of_int (int_of_nat v)) (class_weight (elems x.lab) (elems wt)))) in
+    Printf.sprintf " Q%d=[%s] qs%d=%s ql%d=%s qw%d=() sumw%d=%d%s" r (String.concat "|" bs) r x.shape r lsh r r sw cw in
+  let three f (x, wt, lsh) = match f x.inp, f x.lab, f wt with
+    | Some a, Some b, Some c -> ({ x with inp = a; lab = b }, c, lsh)
+    | _ -> raise Reject in
+  let weighted cmd a rest =
+    match cmd.[1] with
+    | 'N' ->
+      let r = a.(0) and n = a.(1) and m = a.(2) in
+      let labs = nl (Array.to_list (Array.sub a 3 n)) and ids = nl (Array.to_list (Array.sub a (3 + n) n))
+      and ws = nl (Array.to_list (Array.sub a (3 + 2 * n) n)) in
+      let m' = nat_of_int (if m = 0 then 256 else m) in
+      (match create ids m', create labs m', create ws m' with
+       | Some i, Some lb, Some w -> wregs.(r) <- ({ inp = i; lab = lb; shape = shape0 }, w, "()"); dump_w r
+       | _ -> raise Reject)
+    | 'U' -> let r = a.(0) and q = a.(1) in
+      let (x, _, lsh) = wregs.(r) in
+      wregs.(q) <- (x, uniform_weights x.inp (nat_of_int a.(2)), lsh); dump_w q
+    | 'I' -> let r = a.(0) and q = a.(1) in wregs.(q) <- three (indexed_subset (rest 2)) wregs.(r); dump_w q
+    | 'L' -> let r = a.(0) and q = a.(1) in
+      let (x, wt, lsh) = wregs.(r) in
+      (match splice (nat_of_int a.(2)) x.inp, splice (nat_of_int a.(2)) x.lab, splice (nat_of_int a.(2)) wt with
+       | Some (i1, i2), Some (l1, l2), Some (w1, w2) ->
+         wregs.(r) <- ({ x with inp = i1; lab = l1 }, w1, lsh); wregs.(q) <- ({ x with inp = i2; lab = l2 }, w2, lsh);
+         dump_w r ^ dump_w q
+       | _ -> raise Reject)
+    | 'A' -> let r = a.(0) and q = a.(1) in
+      let (x, wt, lsh) = wregs.(r) and (y, wy, _) = wregs.(q) in
+      wregs.(r) <- ({ x with inp = append x.inp y.inp; lab = append x.lab y.lab }, append wt wy, lsh); dump_w r
+    | 'P' -> let r = a.(0) in wregs.(r) <- three (repartition (rest 1)) wregs.(r); dump_w r
+    | 'S' -> let r = a.(0) in wregs.(r) <- three (split_batch (nat_of_int a.(1)) (nat_of_int a.(2))) wregs.(r); dump_w r
+    | 'B' -> (* QB r q size draws.. : the draws are reconstructed by the Python driver from the weights the library produced *)
+      let r = a.(0) and q = a.(1) in
+      let (x, _, lsh) = wregs.(r) in
+      let draws = rest 3 in
+      let size = if a.(2) = 0 then int_of_nat (nelems x.inp) else a.(2) in
+      if List.length draws <> size || List.exists (fun i -> int_of_nat i >= int_of_nat (nelems x.inp)) draws then " INVALIDCHOICE" else begin
+        let b = w_bootstrap x.inp draws in
+        wregs.(q) <- (x, b.labels, lsh); dump_w q end
+    | 'X' -> let (x, wt, _) = wregs.(a.(0)) in
+      if ty <> "uint" then " wi=NA" else
+        let bs = List.map2 (fun bi bw -> String.concat "," (List.map2 (fun i w -> Printf.sprintf "%d:%d" (int_of_nat i) (int_of_nat w)) bi bw)) x.inp wt in
+        Printf.sprintf " wi=[%s] wisum=%d" (String.concat "|" bs) (int_of_nat (sum_of_weights { inputs = x.inp; labels = wt }))
+    | _ -> " ?" in
   (try
     while true do
       let l = input_line ic in
       let toks = List.filter (fun x -> x <> "") (String.split_on_char ' ' l) in
       match toks with
       | [] -> print_newline ()
-      | "C" :: s :: _ -> Array.fill regs 0 4 empty; sh_reset (); Printf.printf "C %s\n" s
+      | "C" :: s :: _ -> Array.fill regs 0 4 empty; Array.fill wregs 0 4 wempty; sh_reset (); Printf.printf "C %s\n" s
       | cmd :: args ->
         let a = Array.of_list (List.map int_of_string args) in
         let rest k = nl (Array.to_list (Array.sub a k (Array.length a - k))) in
@@ -264,6 +319,7 @@ let () =
              | "CT" -> let r = a.(0) in let k = nat_of_int a.(1) in
                run_cv r (ReqBatch (rest 2, k)) true
              | _ when String.length cmd = 2 && cmd.[0] = 'X' -> shared cmd a rest
+             | _ when String.length cmd = 2 && cmd.[0] = 'Q' -> weighted cmd a rest
              | _ -> " ?")
           with Reject -> " REJECT" | Invalid_argument _ -> " REJECT" in
         Printf.printf "%s ->%s\n" l out
